@@ -20,7 +20,7 @@ RULE = ("one case = one fit() run: N in 1..60, batch size 1..64 (N < batch, N = 
         "None / smaller / larger, with and without bases, 1..4 epochs, data as tensor / ndarray / nested list; rows pairwise "
         "distinct with distinct basis strings (unambiguous) or heavily duplicated (multiset). Non-trivial: >= 2 batches "
         "per epoch and >= 2 epochs; distinct by sha256(config, data, bases).")
-REQUIRED = ["epochs_checked", "positive_batches_checked", "negative_batches_checked", "runs_with_bases", "runs_without_bases",
+REQUIRED = ["second_fits_with_new_data", "epochs_checked", "positive_batches_checked", "negative_batches_checked", "runs_with_bases", "runs_without_bases",
             "runs_N_lt_batch", "runs_N_multiple", "runs_N_remainder", "protected_write_ops_inspected", "data_forms_list",
             "data_forms_ndarray", "data_forms_tensor"]
 ANCHOR_FILES = ["qucumber/nn_states/neural_state.py", "qucumber/utils/data.py"]
@@ -76,6 +76,19 @@ def config(case):
 def run_case(case, ctx):
     rng, cfg = config(case)
     kind, n, N = cfg["kind"], cfg["n"], cfg["N"]
+    am, ph = gen.draw_model(rng, kind, n, 2, 1, scales=[0.1, 0.5])
+    st = gen.make_state(kind, am, ph)
+    runs = 2 if case["rep"] % 3 == 0 else 1
+    for run_i in range(runs):
+        # history: a second fit on the SAME state with different data of the same shape must use the new data
+        rows, bases = make_data(rng, cfg, kind, n, N)
+        if run_i == 1:
+            ctx.count("second_fits_with_new_data")
+            cfg = dict(cfg, form=["tensor", "ndarray", "list"][(["tensor", "ndarray", "list"].index(cfg["form"]) + 1) % 3])
+        one_fit(case, ctx, rng, cfg, st, kind, n, N, rows, bases, run_i)
+
+
+def make_data(rng, cfg, kind, n, N):
     if cfg["dup"]:
         pool = R.space(n)[rng.integers(0, 2 ** n, size=2)]
         rows = pool[rng.integers(0, 2, size=N)]
@@ -96,8 +109,10 @@ def run_case(case, ctx):
         nz = max(1, N // 3)
         for r in rng.choice(N, size=nz, replace=False):
             bases[r] = "Z"
-    am, ph = gen.draw_model(rng, kind, n, 2, 1, scales=[0.1, 0.5])
-    st = gen.make_state(kind, am, ph)
+    return rows, bases
+
+
+def one_fit(case, ctx, rng, cfg, st, kind, n, N, rows, bases, run_i):
     if cfg["form"] == "tensor":
         data = torch.tensor(rows, dtype=torch.double)
     elif cfg["form"] == "ndarray":
@@ -119,7 +134,7 @@ def run_case(case, ctx):
     elif isinstance(data, np.ndarray):
         mon.protect("data", torch.from_numpy(data))
     kw = {} if bases is None else {"input_bases": bases}
-    tags = {"state": kind, "with_bases": bases is not None}
+    tags = {"state": kind, "with_bases": bases is not None, "run": run_i}
     try:
         with mon:
             ctx.lib("fit", st.fit, data, epochs=cfg["epochs"], pos_batch_size=cfg["pos"], neg_batch_size=cfg["neg"],
